@@ -302,7 +302,35 @@ func expandCond(c Cond, depth int) []Cond {
 	}
 	n := Normalize(c)
 	phi, ok := n.V.(*ssa.Phi)
-	if !ok || (phi.Comment != "||" && phi.Comment != "&&") {
+	if ok && phi.Comment != "||" && phi.Comment != "&&" {
+		// a boolean variable merged from several assignments: edges carrying the opposite constant cannot
+		// be the source of the observed truth value; if one candidate remains, it has that truth value
+		// (`for !done { …; done = step() }`: done observed true ⇒ the last step returned true)
+		var cand ssa.Value
+		nc := 0
+		for _, e := range phi.Edges {
+			if k, isK := e.(*ssa.Const); isK && k.Value != nil && k.Value.Kind() == constant.Bool {
+				if constant.BoolVal(k.Value) != n.True {
+					continue
+				}
+				nc = 99 // a constant of the observed value: nothing can be said
+				continue
+			}
+			if cand == nil || cand == e {
+				if cand == nil {
+					nc++
+				}
+				cand = e
+			} else {
+				nc = 99
+			}
+		}
+		if nc == 1 && cand != nil && cand != ssa.Value(phi) {
+			out = append(out, expandCond(Cond{cand, n.True, c.If}, depth+1)...)
+		}
+		return out
+	}
+	if !ok {
 		return out
 	}
 	or := phi.Comment == "||"
